@@ -406,38 +406,56 @@ def _r2_jacobian(ctx):
             else:
                 ctx.violated(init, inner, "%s: sum_a dphi_a/dxi_%d = %r, not 0: constant fields would get a non-zero "
                              "gradient" % (shape, j + 1, tot), text="%s partition j=%d" % (shape, j))
-        # Jacobian entries
+        # Jacobian assembly: the 3x3 literal of named entries handed to np.array; roles by position, not by name
+        asm = [s for s in walk_function(comp.node) if isinstance(s, ast.Assign) and isinstance(s.targets[0], ast.Name) and
+               isinstance(s.value, ast.Call) and call_name(s.value) in ("np.array", "np.asarray") and s.value.args and
+               isinstance(s.value.args[0], ast.List) and len(s.value.args[0].elts) == 3 and
+               all(isinstance(r, ast.List) and len(r.elts) == 3 for r in s.value.args[0].elts)]
+        if len(asm) != 1:
+            raise AnalysisError("%s: Jacobian assembly (3x3 literal) not found" % shape)
+        rows = asm[0].value.args[0].elts
+        cells = {c.id for r in rows for c in r.elts if isinstance(c, ast.Name)}
         jdefs = {}
         for s in walk_function(comp.node):
-            if isinstance(s, ast.Assign) and isinstance(s.targets[0], ast.Name) and len(s.targets[0].id) == 3 and \
-                    s.targets[0].id[0] == "J" and s.targets[0].id[1:].isdigit():
+            if isinstance(s, ast.Assign) and isinstance(s.targets[0], ast.Name) and s.targets[0].id in cells:
                 jdefs[s.targets[0].id] = s
         if len(jdefs) != 9:
             raise AnalysisError("%s: expected 9 Jacobian entries, found %d" % (shape, len(jdefs)))
-        # matrix assembly J = np.array([[J11,J12,J13],...]) must put J{i}{j} at (i,j)
-        asm = [s for s in walk_function(comp.node) if isinstance(s, ast.Assign) and isinstance(s.targets[0], ast.Name)
-               and s.targets[0].id == "J"]
-        if len(asm) != 1:
-            raise AnalysisError("%s: Jacobian assembly not found" % shape)
-        rows = asm[0].value.args[0].elts if isinstance(asm[0].value, ast.Call) and asm[0].value.args and \
-            isinstance(asm[0].value.args[0], ast.List) else None
-        if rows is None or len(rows) != 3:
-            raise AnalysisError("%s: Jacobian assembly is not a 3x3 literal" % shape)
-        # coordinate symbols: x{a+1}{i+1} unpacked from df.iloc[a, :3]
-        coord_ok = True
+        # coordinate symbols: the three names unpacked from <frame>.iloc[a, :3] are x_{a+1},1..3 (by position)
+        canon = {}
+        n_rows = 0
         for s in walk_function(comp.node):
             if isinstance(s, ast.Assign) and isinstance(s.targets[0], ast.Tuple) and isinstance(s.value, ast.Subscript) \
-                    and isinstance(s.value.value, ast.Attribute) and s.value.value.attr == "iloc":
-                names = [t.id for t in s.targets[0].elts if isinstance(t, ast.Name)]
-                if len(names) == 3 and all(n.startswith("x") for n in names):
-                    row = const_value(s.value.slice.elts[0]) if isinstance(s.value.slice, ast.Tuple) else None
-                    want = ["x%d%d" % (row + 1, i + 1) for i in range(3)] if isinstance(row, int) else None
-                    if names != want:
-                        coord_ok = False
-                        ctx.violated(comp, s, "%s: coordinates of row %s are unpacked as %s; the Jacobian formulas expect %s"
-                                     % (shape, row, names, want))
-        if coord_ok:
-            ctx.holds(comp, comp.node, "%s: node coordinates x_a,i are unpacked from row a-1 in order" % shape)
+                    and isinstance(s.value.value, ast.Attribute) and s.value.value.attr == "iloc" and \
+                    isinstance(s.value.slice, ast.Tuple) and len(s.targets[0].elts) == 3:
+                row = const_value(s.value.slice.elts[0])
+                col = s.value.slice.elts[1]
+                if isinstance(row, int) and isinstance(col, ast.Slice) and col.lower is None and const_value(col.upper) == 3:
+                    n_rows += 1
+                    for i, t in enumerate(s.targets[0].elts):
+                        if isinstance(t, ast.Name):
+                            canon[t.id] = "x%d%d" % (row + 1, i + 1)
+        if n_rows == n_nodes:
+            ctx.holds(comp, comp.node, "%s: node coordinates x_a,i are unpacked from row a-1, columns 0..2" % shape)
+        else:
+            ctx.violated(comp, comp.node, "%s: coordinates of %d rows are unpacked, the element has %d nodes" % (shape, n_rows, n_nodes),
+                         text="%s coordinate rows" % shape)
+        # local reference coordinates: the three names unpacked from the loop variable of the reference-node loop
+        rloop = [s for s in walk_function(comp.node) if isinstance(s, ast.For) and isinstance(s.iter, ast.Call) and
+                 call_name(s.iter) == "enumerate" and isinstance(s.target, ast.Tuple) and len(s.target.elts) == 2]
+        if rloop and isinstance(rloop[0].target.elts[1], ast.Name):
+            xiv = rloop[0].target.elts[1].id
+            for s in rloop[0].body:
+                if isinstance(s, ast.Assign) and isinstance(s.value, ast.Name) and s.value.id == xiv and \
+                        isinstance(s.targets[0], ast.Tuple) and len(s.targets[0].elts) == 3:
+                    for d_, t in enumerate(s.targets[0].elts):
+                        if isinstance(t, ast.Name):
+                            canon[t.id] = "xi%d" % (d_ + 1)
+
+        def _atom_sym(e, canon=canon):
+            if isinstance(e, ast.Name):
+                return canon.get(e.id, "?" + e.id)
+            return None
         for i in range(3):
             for j in range(3):
                 cell = rows[i].elts[j]
@@ -458,11 +476,15 @@ def _r2_jacobian(ctx):
                                  "ansatz functions: the gradient is no longer exact on linear fields" %
                                  (shape, i + 1, j + 1, cell.id, i + 1, j + 1))
         # contraction index
+        sparams = [q for q in single.params if q != "self"]
+        jinv_name = sparams[-1]
+        dname = used[0].targets[0].id if isinstance(used[0].targets[0], ast.Name) else None
+        rname = [s.value.id for s in single.node.body if isinstance(s, ast.Return) and isinstance(s.value, ast.Name)]
         sub = [n for n in ast.walk(single.node) if isinstance(n, ast.Subscript) and isinstance(n.value, ast.Name)
-               and n.value.id == "Jinv"]
-        dcall = [c for c in calls_in(single.node) if isinstance(c.func, ast.Name) and c.func.id == "dphi_a_dxi_j"]
+               and n.value.id == jinv_name]
+        dcall = [c for c in calls_in(single.node) if isinstance(c.func, ast.Name) and c.func.id == dname]
         res = [s for s in walk_function(single.node) if isinstance(s, ast.AugAssign) and isinstance(s.target, ast.Subscript)
-               and isinstance(s.target.value, ast.Name) and s.target.value.id == "result"]
+               and isinstance(s.target.value, ast.Name) and rname and s.target.value.id == rname[0]]
         if len(sub) != 1 or len(dcall) != 1 or len(res) != 1:
             raise AnalysisError("%s: contraction loop not recognised" % shape)
         jvar = norm_text(dcall[0].args[2])
@@ -511,7 +533,7 @@ def _r2_jacobian(ctx):
                 unpack = [s for s in loop[0].body if isinstance(s, ast.Assign) and isinstance(s.value, ast.Name) and
                           s.value.id == xiname and isinstance(s.targets[0], ast.Tuple)]
                 ok = isinstance(cs[0].args[0], ast.Name) and cs[0].args[0].id == xiname and unpack and \
-                    [t.id for t in unpack[0].targets[0].elts] == ["xi1", "xi2", "xi3"]
+                    [canon.get(t.id) for t in unpack[0].targets[0].elts if isinstance(t, ast.Name)] == ["xi1", "xi2", "xi3"]
                 if ok:
                     ctx.holds(comp, cs[0], "Jacobian and ansatz derivatives are evaluated at the same reference point")
                 else:
